@@ -1849,7 +1849,7 @@ DLLEXPORT int tj3DecompressHeader(tjhandle handle,
 
   if (setjmp(this->jerr.setjmp_buffer)) {
     /* If we get here, the JPEG code has signaled an error. */
-    return -1;
+    retval = -1;  goto bailout;
   }
 
   jpeg_mem_src_tj(dinfo, jpegBuf, jpegSize);
@@ -1885,6 +1885,7 @@ DLLEXPORT int tj3DecompressHeader(tjhandle handle,
     THROW("Invalid data returned in header");
 
 bailout:
+  if (dinfo->global_state > DSTATE_START) jpeg_abort_decompress(dinfo);
   if (this->jerr.warning) retval = -1;
   return retval;
 }
